@@ -100,6 +100,14 @@ theorem C04_draws_top (P : Prog) (c0 c c' : Cfg) (h0 : Started c0) (hr : Reach P
     c.A.stack.getLast? = some e ∧ c'.A.stack = c.A.stack :=
   (draws_top h0 hr h he).2
 
+/-- The same on the history alone — "the sequence of screens drawn is the one an ideal stack would
+produce": in the trace of every reachable configuration (newest first), every drawn entry is the top
+of the stack recorded by the newest stack operation before the draw (`C04_ops`: those records are the
+ideal stack driven by the operations issued). -/
+theorem C04_drawn_is_ideal_top (P : Prog) (c0 c : Cfg) (h0 : Started c0) (hr : Reach P c0 c) (e : Entry)
+    (l1 l2 : List Tr) (h : c.tr = l1 ++ .show e :: l2) : (lastStack l2).getLast? = some e :=
+  drawn_is_recorded_top h0 hr h
+
 /-- A `.refresh e` event is added only by the instruction `afterSetup2 e` (`_process_screen` after the
 ready check / after a successful `setup`). -/
 theorem C04_refresh_step (P : Prog) (c c' : Cfg) (h : Trans P c c') (e : Entry) (he : .refresh e ∈ newTr c c') :
